@@ -366,7 +366,7 @@ MUTANTS = [
     Mutant("radiolytic-yield-inverse", [(RATES, "return (dict(zip(dimension_codes, N / E)),) * self.nargs", "return (dict(zip(dimension_codes, E / N)),) * self.nargs")], "C10-R1", "Radiolytic"),
     Mutant("sintemp-phase-dimension", [(RATES, 'return ({"temperature": 1}, {"temperature": 1}, {"time": -1}, {})', 'return ({"temperature": 1}, {"temperature": 1}, {"time": -1}, {"time": 1})')], "C10-R1", "SinTemp"),
     Mutant("rampedtemp-slope", [(RATES, 'return ({"temperature": 1}, {"temperature": 1, "time": -1})', 'return ({"temperature": 1}, {"temperature": 1, "time": 1})')], "C10-R1", "RampedTemp"),
-    Mutant("eyring-call-drops-conc0", [(RATES, 'return c0 * T * backend.exp(-c1 / T) * conc0 ** (1 - kwargs["reaction"].order())', 'return c0 * T * backend.exp(-c1 / T)')], "C10-R1", "Eyring"),
+    Mutant("eyring-call-drops-conc0", [(RATES, '            * backend.exp(_pure_number(-c1 / T))\n            * conc0 ** (1 - kwargs["reaction"].order())\n', '            * backend.exp(_pure_number(-c1 / T))\n')], "C10-R1", "Eyring"),
     Mutant("acceptance-wrong-exponent", [(CHEM, "/ (default_units.molar ** (1 - self.order()) / default_units.s)", "/ (default_units.molar ** (-self.order()) / default_units.s)")], "C10-R2", "expected-dimension"),
     Mutant("acceptance-swallowed", [(CHEM, "            except Exception:\n                if throw:\n                    raise\n                else:\n                    return False", "            except Exception:\n                return not throw")], "C10-R2", "failure-propagates"),
     Mutant("acceptance-not-default", [(CHEM, 'default_checks = {"any_effect", "all_positive", "all_integral", "consistent_units"}', 'default_checks = {"any_effect", "all_positive", "all_integral"}')], "C10-R2", "default-check"),
@@ -383,5 +383,5 @@ MUTANTS.append(Mutant("unique-unit-loses-magnitude", [(ODE, "        unique_unit
 
 TWINS = [
     Twin("massaction-length-rewritten", [(RATES, '    def args_dimensionality(self, reaction):\n        order = reaction.order()\n        return ({"time": -1, "amount": 1 - order, "length": 3 * (order - 1)},)', '    def args_dimensionality(self, reaction):\n        order = reaction.order()\n        return ({"time": -1, "amount": 1 - order, "length": 3 * order - 3},)')]),
-    Twin("eyringhs-call-rearranged", [(RATES, "            * backend.exp(-(dH - T * dS) / (R * T))", "            * backend.exp((T * dS - dH) / (T * R))")]),
+    Twin("eyringhs-call-rearranged", [(RATES, "            * backend.exp(_pure_number(-(dH - T * dS) / (R * T)))", "            * backend.exp(_pure_number((T * dS - dH) / (T * R)))")]),
 ]
